@@ -301,6 +301,16 @@ func main() {
 				outs[i] = o
 				return
 			}
+			if werr != nil && prop == "C09" && libraryCrash(buf.String()) {
+				// an unrecovered panic outside every handler goroutine (those are wrapped in recover by the simulator): a goroutine the
+				// library started itself panicked and took the process down — the worst way for "processing never panics" to fail
+				o := &workerOut{Prop: prop, Fired: map[string]int{}, Probes: map[string]int{}, Known: map[string]int{}}
+				o.Violation = crashViolation(b, tmp, i, prop, seed, buf.String())
+				if o.Violation != nil {
+					outs[i] = o
+					return
+				}
+			}
 			b2, rerr := os.ReadFile(of)
 			if werr != nil || rerr != nil {
 				mu.Lock()
@@ -438,6 +448,14 @@ func main() {
 		for try := 0; !ok && try < 4 && strings.Contains(v.Replay, "-w") && isRaceWorker(cfg, v.Replay); try++ {
 			ok = replayOK(raceBin, v.Replay) // overlap windows really overlap: the verdict of an isolation oracle may need a few tries
 		}
+		for try := 0; !ok && try < 6 && !(v.PrefixReplay != "" && prefixReplayOK(b, v.PrefixReplay)); try++ {
+			// neither the plan nor the process prefix reproduces at the first attempt. The simulator is deterministic (self-test),
+			// so the remaining source of variation is the code under test itself — a reply that depends on Go's randomised map
+			// iteration order, say. Such a violation reproduces with some probability per attempt; it is reported with that note.
+			if ok = replayOK(b, v.Replay); ok {
+				fmt.Printf("vcheck: note: %s reproduced only at replay attempt %d: the code under test is itself nondeterministic for this plan\n", v.Key, try+2)
+			}
+		}
 		if !ok {
 			// the minimised plan alone does not reproduce: does the violation depend on state the library carried over from
 			// earlier runs of the same process? Then the worker's case sequence up to the failing case reproduces it.
@@ -563,6 +581,9 @@ func replayOK(bin, path string) bool {
 	if strings.Contains(path, "C15-race") {
 		return bytes.Contains(out, []byte("WARNING: DATA RACE"))
 	}
+	if strings.Contains(filepath.Base(path), "C09-crash") {
+		return libraryCrash(string(out))
+	}
 	return bytes.Contains(out, []byte("REPLAY-REPRODUCED"))
 }
 
@@ -605,7 +626,8 @@ func replay(path string) {
 	out, _ := cmd.CombinedOutput()
 	os.Stdout.Write(out)
 	prop := strings.SplitN(filepath.Base(path), "-", 2)[0]
-	if bytes.Contains(out, []byte("REPLAY-REPRODUCED")) || (raceMode && bytes.Contains(out, []byte("WARNING: DATA RACE"))) {
+	if bytes.Contains(out, []byte("REPLAY-REPRODUCED")) || (raceMode && bytes.Contains(out, []byte("WARNING: DATA RACE"))) ||
+		(strings.Contains(filepath.Base(path), "C09-crash") && libraryCrash(string(out))) {
 		fmt.Printf("VIOLATION property=%s replay=%s\n", prop, path)
 		exit(1)
 	}
@@ -650,6 +672,96 @@ func raceViolation(tmp string, worker int, prop string, seed uint64, output stri
 	}
 	return &violation{Rule: "C15.3 data race", Key: key, Expected: "no data race between concurrently served requests (go test -race, overlap windows chosen by the plan)",
 		Observed: abbreviate(output, 3000), Replay: path}
+}
+
+// libraryCrash: did the process die of a Go panic whose panicking goroutine was executing /repo code? (The simulator recovers
+// panics of handler goroutines and of the registration API itself, so what is left are goroutines the library started.)
+func libraryCrash(output string) bool {
+	i := strings.Index(output, "\npanic: ")
+	if i < 0 && strings.HasPrefix(output, "panic: ") {
+		i = 0
+	}
+	if i < 0 || strings.Contains(output[i:], "panic: test timed out") {
+		return false
+	}
+	rest := output[i:]
+	j := strings.Index(rest, "\ngoroutine ")
+	if j < 0 {
+		return false
+	}
+	blk := rest[j+1:]
+	if k := strings.Index(blk, "\n\n"); k > 0 {
+		blk = blk[:k]
+	}
+	return strings.Contains(blk, "github.com/zitadel/saml/")
+}
+
+func crashFunc(output string) string {
+	i := strings.Index(output, "panic: ")
+	if i < 0 {
+		return "unknown"
+	}
+	for _, line := range strings.Split(output[i:], "\n") {
+		line = strings.TrimSpace(line)
+		if strings.HasPrefix(line, "github.com/zitadel/saml/") {
+			fn := strings.TrimPrefix(line, "github.com/zitadel/saml/pkg/")
+			if k := strings.LastIndex(fn, "("); k > 0 {
+				fn = fn[:k]
+			}
+			return fn
+		}
+	}
+	return "unknown"
+}
+
+// crashViolation turns a worker that died of a library panic into a violation: the plan it was executing (written to the begin
+// log before every run) is the replay; steps are then removed greedily while the crash persists.
+func crashViolation(bin, tmp string, worker int, prop string, seed uint64, output string) *violation {
+	b, err := os.ReadFile(filepath.Join(tmp, fmt.Sprintf("begin%d.json", worker)))
+	if err != nil {
+		return nil
+	}
+	var plan map[string]any
+	if json.Unmarshal(b, &plan) != nil {
+		return nil
+	}
+	fn := crashFunc(output)
+	key := "C09:crash:panic-in-a-goroutine-started-by-the-library:" + fn
+	i := strings.Index(output, "panic: ")
+	obs := abbreviate(output[i:], 2500)
+	path := filepath.Join(verifDir, "replays", fmt.Sprintf("C09-crash-%d-w%d.json", seed, worker))
+	write := func(p map[string]any) bool {
+		p["violation"] = map[string]any{"rule": "C09 process-crash", "key": key, "expected": "processing terminates with a regular HTTP response or a returned error; it never panics",
+			"observed": obs, "task": -1}
+		nb, _ := json.MarshalIndent(p, "", " ")
+		return os.WriteFile(path, nb, 0o644) == nil
+	}
+	if !write(plan) {
+		return nil
+	}
+	steps, _ := plan["steps"].([]any)
+	before := len(steps)
+	if replayOK(bin, path) {
+		tries := 0
+		for k := len(steps) - 1; k >= 0 && tries < 150; k-- {
+			cand := append(append([]any{}, steps[:k]...), steps[k+1:]...)
+			plan["steps"] = cand
+			write(plan)
+			tries++
+			if replayOK(bin, path) && crashFuncOfReplay(bin, path) == fn {
+				steps = cand
+			}
+		}
+		plan["steps"] = steps
+		write(plan)
+	}
+	return &violation{Rule: "C09 process-crash", Key: key, Expected: "processing terminates with a regular HTTP response or a returned error; it never panics (a panic in a goroutine the library starts takes the whole process down)",
+		Observed: obs, Replay: path, StepsBefore: before, StepsAfter: len(steps)}
+}
+
+func crashFuncOfReplay(bin, path string) string {
+	out, _ := exec.Command(bin, "-test.run", "^TestReplay$", "-test.timeout", "0", "-replay", path).CombinedOutput()
+	return crashFunc(string(out))
 }
 
 func abbreviate(s string, n int) string {
